@@ -20,6 +20,20 @@ fn one<W: Write>(c: &mut Cases<W>, bytes: &[u8], class: &str) {
     if short != res {
         println!("DIRECT fail open of a {}-byte string through a source serving {} byte(s) per read: {} (whole reads: {})", bytes.len(), max_read, short, res);
     }
+    // and through a source that reports ErrorKind::Interrupted before every other read (one string in four)
+    if bytes.len() % 4 == 1 || bytes.len() == 22 || bytes.len() == 21 {
+        let ctl = crate::c_io::Ctl::new();
+        *ctl.rng.borrow_mut() = Some(Rng::new(bytes.len() as u64 + 1));
+        ctl.mode.set(1);
+        let intr = match catch(|| Reader::new(crate::c_io::Sched::new(bytes.to_vec(), ctl.clone())).map(|r| (r.file_version() as u32, r.compression_type() as u8, r.len()))) {
+            Ok(Ok((v, codec, n))) => format!("ok {} {} {}", v, codec, n),
+            Ok(Err(e)) => format!("err {}", err_class(&e)),
+            Err(_) => "panic".to_string(),
+        };
+        if intr != res {
+            println!("DIRECT fail open of a {}-byte string through a source that interrupts every other read: {} (plain source: {})", bytes.len(), intr, res);
+        }
+    }
     c.begin("open");
     // only the last 64 bytes matter to open; keep the length
     let tail = if bytes.len() > 64 { &bytes[bytes.len() - 64..] } else { bytes };
